@@ -1,11 +1,11 @@
 package props
 
 import (
-	"strings"
 	"bytes"
 	"context"
 	"fmt"
 	"os"
+	"strings"
 	"time"
 
 	"hpverif/internal/core"
